@@ -526,20 +526,16 @@ impl<'a> Parser<'a> {
     }
 
     fn parse_op_chain(&mut self, exec_prec: i32, mut lhs: ExprAST<'a>) -> Result<ExprAST<'a>> {
-        let mut is_not = false;
         loop {
             if !self.tokenizer.cur_token.is_op_token() {
                 return Ok(lhs);
             }
-            if self.tokenizer.cur_token.is_not_token() {
-                is_not = true;
-                self.next()?;
-                if !self.cur_tok().is_binop_token() {
-                    return Err(Error::ExpectBinOpToken);
-                }
-                continue;
-            }
             if self.tokenizer.cur_token.is_question_mark() {
+                // the conditional binds looser than every infix operator, so only
+                // the outermost level of an expression may take the `?`
+                if exec_prec > 0 {
+                    return Ok(lhs);
+                }
                 self.enter()?;
                 self.next()?;
                 let a = self.parse_expression()?;
@@ -547,9 +543,17 @@ impl<'a> Parser<'a> {
                 let b = self.parse_expression()?;
                 return Ok(ExprAST::Ternary(Box::new(lhs), Box::new(a), Box::new(b)));
             }
-            let (l_bp, r_bp) = self.get_token_precidence();
+            // `lhs not OP rhs` means not(lhs OP rhs) and OP keeps its own precedence
+            let is_not = self.tokenizer.cur_token.is_not_token();
+            let (is_binop, (l_bp, r_bp)) = self.infix_op_ahead()?;
+            if is_not && !is_binop {
+                return Err(Error::ExpectBinOpToken);
+            }
             if l_bp < exec_prec {
                 return Ok(lhs);
+            }
+            if is_not {
+                self.next()?;
             }
             let op: &str = match self.tokenizer.cur_token {
                 Token::Operator(op, _) => op,
@@ -559,20 +563,30 @@ impl<'a> Parser<'a> {
             self.next()?;
             let mut rhs = self.parse_primary()?;
 
-            let (cur_l_bp, _) = self.get_token_precidence();
-            if self.tokenizer.cur_token.is_binop_token() && r_bp < cur_l_bp {
+            let (is_binop, (cur_l_bp, _)) = self.infix_op_ahead()?;
+            if is_binop && r_bp < cur_l_bp {
                 rhs = self.parse_op(r_bp, rhs)?;
             }
             lhs = ExprAST::Binary(op, Box::new(lhs), Box::new(rhs));
             if is_not {
                 lhs = ExprAST::Unary("not", Box::new(lhs));
-                is_not = false;
             }
         }
     }
 
-    fn get_token_precidence(&self) -> (i32, i32) {
-        match &self.cur_tok() {
+    // whether the operator at the cursor (looking through a leading `not`) is an
+    // infix operator, and its binding powers
+    fn infix_op_ahead(&self) -> Result<(bool, (i32, i32))> {
+        if self.tokenizer.cur_token.is_not_token() {
+            let token = self.tokenizer.peek()?;
+            return Ok((token.is_binop_token(), Self::token_precidence(&token)));
+        }
+        let token = self.cur_tok();
+        Ok((token.is_binop_token(), Self::token_precidence(&token)))
+    }
+
+    fn token_precidence(token: &Token) -> (i32, i32) {
+        match token {
             Token::Operator(op, _) => InfixOpManager::new().get_precidence(op),
             _ => (-1, -1),
         }
